@@ -100,10 +100,16 @@ def minimise(hist, probe_names, bad):
     return cur, bad
 
 
+def _reduced(events):
+    """alphabet of the length-3 histories: three constant spellings instead of nineteen"""
+    keep = ("Int(1.0)", "Real(7)", "Real(0.5)")
+    return [e for e in events if e[0] != "const" or e[1] in keep]
+
+
 def run_shard(args):
     first, L, event_names, probe_names, seed = args
     res = Result()
-    events = H.query_events(event_names, extra=H.EXTRA_EVENTS if L <= 2 else ())
+    events = H.query_events(event_names, extra=H.EXTRA_EVENTS) if L <= 2 else _reduced(H.query_events(event_names))
     # second and later positions: the events whose own effect is already covered as a history of length 1
     # and that only read (printing, type query, four of the six size measures) are not repeated
     later = [e for e in events if not (e[0] in ("serialize", "smtlib", "get_type") or (e[0] == "size" and e[2] not in (0, 4)))]
@@ -139,8 +145,8 @@ def run(ctx):
     shards = [(e, L, event_names, ALL, ctx.seed) for e in events]
     if not q:
         # thorough: length 3 over a reduced alphabet
-        small = ["F3", "F9"]
-        for e in H.query_events(small):
+        small = ["F9"]
+        for e in _reduced(H.query_events(small)):
             shards.append((e, 3, small, ALL, ctx.seed))
     ctx.rng.shuffle(shards)
     ctx.pmap(run_shard, shards)
